@@ -37,4 +37,4 @@ def bounded_constraints(ctx, props):
     attach(ctx, b)
 
 
-REPLAYERS = []
+from runner.native_constraints import REPLAYERS    # native replay of deductive counter-models
